@@ -2,6 +2,6 @@
 # tools/ingest.sh <Cxx> <n> [extra checks...]: copy /tmp/seed/<Cxx>b/_out into seeded/agent-<Cxx>-<n>, run its target check
 id=$1; n=$2; shift 2
 d=/verif/seeded/agent-$id-$n
-mkdir -p $d; cp /tmp/seed/${id}b/_out/patch.diff /tmp/seed/${id}b/_out/demo.rs /tmp/seed/${id}b/_out/notes.md $d/ 2>/dev/null
+mkdir -p $d; S=${SUF:-b}; cp /tmp/seed/${id}$S/_out/patch.diff /tmp/seed/${id}$S/_out/demo.rs /tmp/seed/${id}$S/_out/notes.md $d/ 2>/dev/null
 grep '^[-+]' $d/patch.diff | grep -v '^+++\|^---' | head -20
 cd /verif && ./tools/seedrun.sh $d/patch.diff $id "$@" 2>&1 | cut -c1-320
